@@ -31,7 +31,7 @@ CORPUS = os.path.join(VERIF, "corpus", "C14")
 # region (alarms attributed, logged as a note) and kept out of probes() until the coordinator lists it
 CANDIDATES = (L.R_CSR8, L.R_LITTLE, L.R_AXIL_RD)
 
-QUICK = {"random_socs": 4, "mem": 600, "export": 500, "max_regs": 14, "sweeps": 6, "verdicts": 40, "irqs": 12}
+QUICK = {"random_socs": 4, "mem": 500, "export": 400, "max_regs": 14, "sweeps": 5, "verdicts": 32, "irqs": 10}
 THOROUGH = {"random_socs": 80, "mem": 6000, "export": 4000, "max_regs": None, "sweeps": 48, "verdicts": 300, "irqs": 150}
 
 
